@@ -22,11 +22,12 @@ STREAM_FES = ("pandas", "numpy", "netcdf_obj", "netcdf_path", "xarray_obj", "xar
 # generation
 # --------------------------------------------------------------------------
 def generate(rng, tier="quick"):
-    tbl = wl.gen_table(rng, max_n=24 if tier == "quick" else 40, index_kinds=("range", "range", "offset", "datetime", "str"), no_time_p=0.08)
+    tbl = wl.gen_table(rng, max_n=24 if tier == "quick" else 40, index_kinds=("range", "range", "offset", "datetime", "str"), no_time_p=0.08, unsorted_p=0.05)
     fault_free = rng.chance(0.15)
     kinds = () if fault_free else tuple(rng.subset(wl.FAULT_KINDS, 0.5, at_least=1))
     cfg = wl.gen_config(rng, tbl, max_ctx=3, max_tests=3, fault_kinds=kinds, max_faults=4)
-    fes = rng.subset(STREAM_FES, 0.45, at_least=1)
+    pool = tuple(f for f in STREAM_FES if not (tbl.get("unsorted") and f.startswith("xarray")))
+    fes = rng.subset(pool, 0.45, at_least=1)
     if len(tbl["cols"]) == 1 and rng.chance(0.5):
         fes.append("qcconfig")
     scn = {
